@@ -94,7 +94,7 @@ def run_case(case, rec, exp):
     return obs_of(rec), code_of(exp)
 
 
-WORDISH = {0xE9, 0xC9, 0xDF, 0x17F, 0x212A, 0xD801}      # é É ß ſ K(Kelvin), lead unit of U+10400/U+10428
+WORDISH = ({0xAA, 0xB5, 0xBA, 0x17F, 0x212A, 0xD801} | (set(range(0xC0, 0x100)) - {0xD7, 0xF7}))  # Latin-1 letters (é ß ÿ …), ſ, K, lead unit of U+10400/U+10428
 NEG_SHORTHAND_IN_CLASS = re.compile(r"\[[^\]]*\\[DWS][^\]]*\]")
 QUANTIFIED_GROUP = re.compile(r"\)(\*|\+|\?|\{\d)")
 
@@ -194,7 +194,7 @@ def explained(case, rec, exp):
         if out and i > 0 and len({json.dumps(c[i - 1].get("li")) for c in cf}) > 1:
             break         # an explained deviation has left different lastIndex values behind
         k = op["o"]
-        if k in ("match", "replace", "replaceFn") and "g" in f and empty and re2 and r[1] == r[2] == r[3]:
+        if k in ("match", "replace", "replaceFn", "replaceLI") and "g" in f and empty and re2 and r[1] == r[2] == r[3]:
             out.add("F201")
         elif r[1] == r[2] == r[3] and re2 and shape205:
             out.add("F205")   # RE2 find-all route vs regexp2 (used from every lastIndex > 0, so the tables agree)
